@@ -39,6 +39,8 @@ type mutant struct {
 
 var pairs = flag.Bool("pairs", false, "second operator set: sibling names swapped (left/right, LStart/RStart, prev/next, X/Y, …) and two-argument calls with their arguments exchanged")
 
+var swapStmts = flag.Bool("swap", false, "third operator set: two adjacent simple statements exchanged")
+
 var sibling = map[string]string{}
 
 func init() {
@@ -81,7 +83,7 @@ func collect(repo string) []mutant {
 		ast.Inspect(af, func(n ast.Node) bool {
 			switch x := n.(type) {
 			case *ast.BinaryExpr:
-				if *pairs {
+				if *pairs || *swapStmts {
 					return true
 				}
 				swaps := map[token.Token][]string{
@@ -93,7 +95,7 @@ func collect(repo string) []mutant {
 					add(x.OpPos, x.OpPos+token.Pos(len(x.Op.String())), r, x.Op.String()+"→"+r)
 				}
 			case *ast.BasicLit:
-				if *pairs {
+				if *pairs || *swapStmts {
 					return true
 				}
 				if x.Kind == token.INT && len(x.Value) < 4 && !strings.HasPrefix(x.Value, "0x") {
@@ -102,11 +104,11 @@ func collect(repo string) []mutant {
 					add(x.Pos(), x.End(), fmt.Sprint(v+1), x.Value+"→"+fmt.Sprint(v+1))
 				}
 			case *ast.UnaryExpr:
-				if !*pairs && x.Op == token.NOT {
+				if !*pairs && !*swapStmts && x.Op == token.NOT {
 					add(x.OpPos, x.OpPos+1, "", "drop !")
 				}
 			case *ast.BranchStmt:
-				if *pairs {
+				if *pairs || *swapStmts {
 					return true
 				}
 				if x.Label == nil && x.Tok == token.BREAK {
@@ -139,6 +141,28 @@ func collect(repo string) []mutant {
 					}
 				}
 			case *ast.BlockStmt:
+				if *swapStmts {
+					simple := func(st ast.Stmt) bool {
+						switch y := st.(type) {
+						case *ast.ExprStmt, *ast.IncDecStmt:
+							return true
+						case *ast.AssignStmt:
+							return y.Tok != token.DEFINE
+						}
+						return false
+					}
+					for i := 0; i+1 < len(x.List); i++ {
+						a, b := x.List[i], x.List[i+1]
+						if simple(a) && simple(b) {
+							ta := string(src[fset.Position(a.Pos()).Offset:fset.Position(a.End()).Offset])
+							tb := string(src[fset.Position(b.Pos()).Offset:fset.Position(b.End()).Offset])
+							if ta != tb {
+								add(a.Pos(), b.End(), tb+"\n"+ta, "swap statements")
+							}
+						}
+					}
+					return true
+				}
 				for _, st := range x.List {
 					if *pairs {
 						break
